@@ -120,6 +120,23 @@ Definition nat_sem (vi va : nval) : outcome loc :=
   | _, _ => Err Blame
   end.
 
+(* thread the heap through a list of computations, left to right *)
+Fixpoint seqN {A B} (f : heap -> A -> outcome B * heap) (h : heap) (l : list A) : outcome (list B) * heap :=
+  match l with
+  | [] => (Ok [], h)
+  | a :: l' =>
+      match f h a with
+      | (Ok b, h1) =>
+          match seqN f h1 l' with
+          | (Ok bs, h2) => (Ok (b :: bs), h2)
+          | (Err e, h2) => (Err e, h2)
+          | (OutOfFuel, h2) => (OutOfFuel, h2)
+          end
+      | (Err e, h1) => (Err e, h1)
+      | (OutOfFuel, h1) => (OutOfFuel, h1)
+      end
+  end.
+
 Section WithFiles.
 Variable fl : files.
 Variable md : mode.
@@ -234,62 +251,35 @@ Fixpoint evalN (n : nat) (h : heap) (rho : nenv) (t : tm) {struct n} : outcome n
 
 Definition enter (n : nat) (h : heap) (l : loc) : outcome nval * heap := enter_with (evalN n) h l.
 
-(* deep evaluation (%force% for export): enter every element, then recurse *)
+(* deep evaluation (%force% for export): enter every element, then recurse; elements are
+   forced last to first *)
 Fixpoint exportN (n : nat) (h : heap) (v : nval) {struct n} : outcome data * heap :=
   match n with
   | O => (OutOfFuel, h)
   | S n =>
+    let elem := fun (h : heap) (l : loc) =>
+      match enter n h l with
+      | (Ok v, h1) => exportN n h1 v
+      | (Err e, h1) => (Err e, h1)
+      | (OutOfFuel, h1) => (OutOfFuel, h1)
+      end in
     match v with
     | NNum z => (Ok (DNum z), h)
     | NStr s => (Ok (DStr s), h)
     | NBool b => (Ok (DBool b), h)
     | NClo _ _ _ => (Ok DFun, h)
     | NArr ls =>
-        let fix go (h : heap) (ls : list loc) : outcome (list data) * heap :=
-          match ls with
-          | [] => (Ok [], h)
-          | l :: ls' =>
-              match enter n h l with
-              | (Ok v, h1) =>
-                  match exportN n h1 v with
-                  | (Ok d, h2) =>
-                      match go h2 ls' with
-                      | (Ok ds, h3) => (Ok (d :: ds), h3)
-                      | r => r
-                      end
-                  | (Err e, h2) => (Err e, h2)
-                  | (OutOfFuel, h2) => (OutOfFuel, h2)
-                  end
-              | (Err e, h1) => (Err e, h1)
-              | (OutOfFuel, h1) => (OutOfFuel, h1)
-              end
-          end in
-        match go h (rev ls) with
+        match seqN elem h (rev ls) with
         | (Ok ds, h') => (Ok (DArr (rev ds)), h')
         | (Err e, h') => (Err e, h')
         | (OutOfFuel, h') => (OutOfFuel, h')
         end
     | NRec fs =>
-        let fix go (h : heap) (fs : list (string * loc)) : outcome (list (string * data)) * heap :=
-          match fs with
-          | [] => (Ok [], h)
-          | (f, l) :: fs' =>
-              match enter n h l with
-              | (Ok v, h1) =>
-                  match exportN n h1 v with
-                  | (Ok d, h2) =>
-                      match go h2 fs' with
-                      | (Ok ds, h3) => (Ok ((f, d) :: ds), h3)
-                      | r => r
-                      end
-                  | (Err e, h2) => (Err e, h2)
-                  | (OutOfFuel, h2) => (OutOfFuel, h2)
-                  end
-              | (Err e, h1) => (Err e, h1)
-              | (OutOfFuel, h1) => (OutOfFuel, h1)
-              end
-          end in
-        match go h (rev fs) with
+        match seqN (fun h p => match elem h (snd p) with
+                               | (Ok d, h1) => (Ok (fst p, d), h1)
+                               | (Err e, h1) => (Err e, h1)
+                               | (OutOfFuel, h1) => (OutOfFuel, h1)
+                               end) h (rev fs) with
         | (Ok ds, h') => (Ok (DRec (rev ds)), h')
         | (Err e, h') => (Err e, h')
         | (OutOfFuel, h') => (OutOfFuel, h')
